@@ -15,12 +15,17 @@ func (l *NSQLookupd) VerifShiftClock(d time.Duration) {
 	l.DB.Lock()
 	defer l.DB.Unlock()
 	seen := make(map[*PeerInfo]struct{})
+	seenProducer := make(map[*Producer]struct{})
 	for _, producers := range l.DB.registrationMap {
 		for _, p := range producers {
 			if _, ok := seen[p.peerInfo]; !ok {
 				seen[p.peerInfo] = struct{}{}
 				atomic.AddInt64(&p.peerInfo.lastUpdate, -int64(d))
 			}
+			if _, ok := seenProducer[p]; ok {
+				continue // one object reachable from two registrations is aged once
+			}
+			seenProducer[p] = struct{}{}
 			if p.tombstoned {
 				p.tombstonedAt = p.tombstonedAt.Add(-d)
 			}
